@@ -63,6 +63,28 @@ class Ret:
         return out
 
 
+class HeaderView:
+    """The envelope header as read by the decoder."""
+
+    def __init__(self, hreads):
+        self.hreads = hreads
+        self.size = 7
+        self.fmts = sorted({r.fmt for r in hreads.values()})
+        self.args = (self.fmts[0] if len(self.fmts) == 1 else
+                     '+'.join(self.fmts),)
+
+    def norm_ok(self):
+        """unsigned, big-endian, widths 1/2/4 at offsets 0/1/3"""
+        return all(r.signed is False and (r.size == 1 or r.order == 'big')
+                   for r in self.hreads.values())
+
+    def describe(self):
+        return ', '.join('%s@%s %s%d' % (r.fmt, r.offset,
+                                         's' if r.signed else 'u',
+                                         8 * r.size)
+                         for r in self.hreads.values())
+
+
 class UnmarshalFacts:
     def __init__(self, ctx, key=None, assume_type=None):
         self.ctx = ctx
@@ -78,24 +100,34 @@ class UnmarshalFacts:
         self.header = self.find_header()
 
     def find_header(self):
-        """The unpack term reading the envelope header data[0:k]."""
-        cands = {}
+        """The reads of the three envelope header fields, located by their
+        absolute offsets (type at 0, channel at 1, size at 3) so that one
+        combined unpack and three separate reads are treated alike.
+        Returns a small object with .size / .args for compatibility, or
+        None when no type-field read exists."""
+        from . import pairs
+        cands = {0: {}, 1: {}, 3: {}}
+        want = {0: 1, 1: 2, 3: 4}
         for r in self.rets:
-            xs = list(r.kn.atoms)
+            xs = [a for a in r.kn.atoms if isinstance(a, Sym)]
             if r.ok_shape:
                 xs += [x for x in (r.n, r.ch) if isinstance(x, Sym)]
-            for t in T.subterms(tuple(xs)):
-                if t.op == 'unpack':
-                    rr = L.abs_range(t.args[1], self.data)
-                    if rr is not None and rr[0] == 0 and \
-                            len(T.fmt(t.args[0]).values) == 3:
-                        cands[t] = cands.get(t, 0) + 1
-        if not cands:
+            for rd in pairs.find_reads(tuple(xs), self.data).values():
+                off = rd.offset
+                if isinstance(off, int) and off in want and \
+                        rd.size == want[off] and rd.fkind == 'int':
+                    cands[off][rd.term] = cands[off].get(rd.term, 0) + 1
+        self.hreads = {}
+        for off, idx in ((0, 0), (1, 1), (3, 2)):
+            if cands[off]:
+                term = max(cands[off], key=lambda t: cands[off][t])
+                self.hreads[idx] = pairs.find_reads(term, self.data)[term]
+        if len(self.hreads) != 3:
             return None
-        return max(cands, key=lambda t: cands[t])
+        return HeaderView(self.hreads)
 
     def hfield(self, i):
-        return T.index(self.header, i)
+        return self.hreads[i].term
 
     def kind_of(self, r):
         prog = self.ctx.prog
@@ -165,3 +197,28 @@ def end_octet_guarded(kn, data, last, fe, fe_char):
             kn.decide(T.compare('eq', sl, fe_char)) is True:
         return True
     return False
+
+
+def validation_on_receive(ctx):
+    """Who-may-call rule shared by C05.V / C13.N: on the receive path
+    validate() may only run inside the default construction of the object,
+    never below a class-level unmarshal method (i.e. on decoded values).
+    -> (number of validate activations, [offending call chains])"""
+    bad = []
+    nval = 0
+    keys = [k for k, _ in ctx.index_mapping()]
+    runs = [UnmarshalFacts(ctx, None)] + [
+        UnmarshalFacts(ctx, k, assume_type=1) for k in keys]
+    for f in runs:
+        for callee, chain, _seq in f.it.calls:
+            name = callee.split(' ')[0]
+            if not name.endswith('.validate'):
+                continue
+            nval += 1
+            in_init = any(c.endswith('.__init__') for c in chain)
+            below_unmarshal = any(c.endswith('.unmarshal') and
+                                  c.count('.') >= 2 for c in chain)
+            if not in_init or below_unmarshal:
+                bad.append('%s via %s' % (name, ' <- '.join(
+                    reversed(chain))))
+    return nval, sorted(set(bad))
